@@ -8,6 +8,7 @@ from multiprocessing import Pool
 import vcheck, flatlib, flatcheck, flatgen, nlmodel
 from nlmodel import Model, INF
 from delivered import Delivered
+N = flatgen.N
 
 PID = 'C07'
 ACC_NATIVE = 'default=2;QuadraticConeConstraint=0;RotatedQuadraticConeConstraint=0;ExponentialConeConstraint=0;' \
@@ -101,7 +102,7 @@ def work(job):
     for cfgname, acc, modes in ((('cones', ACC_CONES, MODES),) if fam == 'cones' else (('native', ACC_NATIVE, MODES),)):
         for (mname, bits, vb, cb, ob, ideal) in modes:
             for fail in ((0, 1) if mname in ('default', 'real-1+2', 'ideal-32+64+512') else (0,)):
-                opts = ('' if bits is None else 'sol:chk:mode=%d' % bits) + (' sol:chk:fail=1' if fail else '')
+                opts = ('' if bits is None else 'sol:chk:mode=%d' % bits) + (' sol:chk:fail' if fail else '')
                 if cfgname == 'cones': opts += ' cvt:socp=2'
                 r = _srv.request('convert', nl=nl, opts=opts.strip(), acc=acc)
                 st['conversions'] += 1
@@ -349,6 +350,50 @@ def work_auxdev(job):
 
 
 
+def work_infeasflag(job):
+    """sol:chk:infeas x the solver's "this candidate is infeasible" flag: the check is skipped exactly when the solver flags the
+    candidate infeasible and the option is off; in every other combination a violating point is reported (warning, or code
+    150 with sol:chk:fail) and a feasible one is not."""
+    global _srv
+    if _srv is None: _srv = flatlib.Server(flatlib.build())
+    st = collections.Counter(); viols = []; classes = set()
+    V = [(0.0, 10.0, False, 0.5), (0.0, 10.0, False, 1.0), (0.0, 1.0, True, 1.0)]
+    mods = [('x+2y<=8', Model(V, acons=[(None, {0: 1.0, 1: 2.0}, -INF, 8.0)], obj=('max', None, {0: 1.0, 1: 1.0}))),
+            ('abs(y)+x<=3 or b', Model(V, acons=[(('abs', ('v', 1)), {0: 1.0}, -INF, 3.0)], lcons=[('or', ('ge', ('v', 0), N(1)), ('ge', ('v', 2), N(1)))]))]
+    for mname, m in mods:
+        nl = m.nl()
+        for optname, optval in (('unset', None), ('set', 1)):
+            for fail in (0, 1):
+                for modeopt in ('', 'sol:chk:mode=3', 'sol:chk:mode=1023'):
+                    opts = ' '.join(t for t in [modeopt, 'sol:chk:infeas' if optval else '', 'sol:chk:fail' if fail else ''] if t)
+                    r = _srv.request('convert', nl=nl, opts=opts, acc=ACC_NATIVE)
+                    st['conversions'] += 1
+                    if r.get('status') != 'ok': viols.append(('C07 conversion failed with sol:chk:infeas', {'opts': opts, 'r': r.get('msg')}, None)); continue
+                    D = Delivered(r, len(m.vars))
+                    for pt in ([1.0, 1.0, 1.0], [9.0, 9.0, 0.0], [0.0, 0.0, 0.0], [4.0, 2.0, 1.0]):
+                        bounds_ok, cons_ok = ref_status(m, pt, 'grid')
+                        a = true_values(D, r, pt, len(m.vars))
+                        if a is None: st['aux_not_determined'] += 1; continue
+                        x = [a[i] for i in range(D.nv)]
+                        for flag in (0, 1):
+                            v = _srv.request('check', x=','.join(repr(float(t)) for t in x), objs='', infeas=str(flag))
+                            st['checks'] += 1
+                            skipped = bool(flag) and not optval
+                            exp = (not (bounds_ok and cons_ok)) and not skipped
+                            got = (not v.get('ok')) if not fail else (v.get('status') == 'exc')
+                            classes.add('infeasflag|opt=%s|flag=%d|%s|exp=%d' % (optname, flag, 'fail' if fail else 'warn', exp))
+                            if got != exp:
+                                viols.append(('C07 %s: sol:chk:infeas=%s, solver flags the candidate %s%s' % (
+                                                  'missed-violation' if exp else 'spurious-violation', optname,
+                                                  'infeasible' if flag else 'as an ordinary solution', ' (fail)' if fail else ''),
+                                              {'model': m.describe(), 'point': pt, 'opts': opts, 'answer': v},
+                                              {'nl': nl, 'opts': opts, 'acc': ACC_NATIVE, 'x': x, 'objs': ''}))
+                            elif exp: st['violations_expected_and_reported'] += 1
+                            else: st['clean_expected_and_clean'] += 1
+    return dict(st), viols[:20], sorted(classes), {'family': 'sol:chk:infeas x solver flag'}
+
+
+
 def models(tier):
     fams = ['linmix', 'canon', 'uenc', 'sharing', 'fracint', 'bounds', 'dvars', 'compl', 'sos', 'cones'] if tier == 'quick' else None
     out = []
@@ -380,7 +425,7 @@ def main(tier, seed):
     jobs = [(fam, name, m, tier, i) for i, (fam, name, m) in enumerate(models(tier))]
     tot = collections.Counter(); classes = set()
     with Pool(vcheck.NCPU) as pool:
-        pending = [pool.apply_async(work_round, (None,)), pool.apply_async(work_tol, (None,)), pool.apply_async(work_auxdev, (None,))]
+        pending = [pool.apply_async(work_round, (None,)), pool.apply_async(work_tol, (None,)), pool.apply_async(work_auxdev, (None,)), pool.apply_async(work_infeasflag, (None,))]
         for pd in pending:
             st, viols, cl, sample = pd.get()
             tot.update(st); classes.update(cl); chk.sample(sample)
@@ -402,6 +447,9 @@ def main(tier, seed):
     chk.assumptions += ['a violation needs viol > feastol (1e-6) and viol/|ref| > feastolrel; grid step 0.5 and the perturbation sizes '
                         '(1e-8, 1e-7 below / 0.3, 0.5 above tolerance) keep every case away from the ambiguous band',
                         'mode bits 4 and 8 (auxiliary constraints) are only exercised inside mode 1023']
+    nfail = len([c for c in classes if '|fail|' in c and c.startswith('native|')])
+    chk.set('classes_with_sol_chk_fail', nfail)
+    if nfail < 10: chk.broken.append('vacuous: the sol:chk:fail runs did not take place')
     if tot['violations_expected_and_reported'] < 100 or tot['clean_expected_and_clean'] < 100:
         chk.broken.append('vacuous: too few cases on one side of the iff')
     return chk.finish()
